@@ -58,6 +58,7 @@ def impl_env(repo=None):
     env[GUARD] = '1'
     env['MPLBACKEND'] = 'Agg'
     env['VERIF_REPO'] = repo
+    env['TQDM_DISABLE'] = '1'
     return env
 
 
